@@ -22,6 +22,14 @@ CLAIMED["C19"] = ("property-based testing (Hypothesis): generated printf directi
          "Exploration: generated directives (flags/width/precision/*/(key)/length modifiers/conversions) and values; digit-exact comparison with CPython's % on the documented common subset, invariants (width, padding, sign, precision, value within half a unit, g/G shape) for the rest; malformed formats must be errors.",
          "Trusts CPython's % operator and fractions.Fraction; the classes where Jsonnet's documented behaviour differs from Python ('#o', precision on %s, sign of -0, g/G, integers >= 2^53) are judged by invariants only.",
          "DESIGN.md section 5 / C19")
+CLAIMED["C18"] = ("property-based testing (Hypothesis): generated mixed-width strings and index/limit arguments, differential against CPython str semantics (code points) plus inverse identities",
+         "Exploration: every string builtin and the index/slice operators are compared with Python's str operations on strings over ASCII/2-/3-/4-byte/combining characters with overlapping separators; arguments outside a function's domain must be errors.",
+         "Trusts CPython str (code-point semantics) and the Jsonnet 0.21 slice rule (negative bounds count from the end).",
+         "DESIGN.md section 5 / C18")
+CLAIMED["C17"] = ("property-based testing (Hypothesis): generated arrays with duplicate keys and index tags (stability observable) vs Python's stable sorted() and key-based set algebra",
+         "Exploration: arrays of numbers/strings/arrays of length 0-200 (dense around the 30/60 element thresholds) with identity and projecting key functions; results compared element for element, tags included; all overlap patterns of set pairs.",
+         "Trusts CPython sorted()/min()/max() (stable, first extremum) and list/str/float ordering, which coincides with Jsonnet's order on homogeneous keys.",
+         "DESIGN.md section 5 / C17")
 NOT_YET = {}
 
 def main():
